@@ -37,6 +37,30 @@ struct udp_run
 		std::vector<std::vector<char>> storage; udp::endpoint from;
 	};
 	std::map<std::string, std::shared_ptr<rop>> rops;
+	std::map<std::string, bool> waitw_pending;
+	// fault injection (C04 / C12)
+	std::int64_t bcount = 0, fault_k = -1, boundaries = 0;
+	std::string fault_obj, fault_what;
+	struct thrown_by_fault {};
+	void apply_fault()
+	{
+		fault_applied = true;
+		std::int64_t t = rec.sync();
+		if (fault_what == "throw") { rec.line("{\"e\":\"Throw\"}"); throw thrown_by_fault(); }
+		auto it = socks.find(fault_obj);
+		if (it == socks.end() || !it->second) return;
+		json::object o; o["op"] = fault_what == "destroy" ? "close" : fault_what; o["s"] = fault_obj;
+		if (fault_what == "destroy")
+		{
+			json::object e; e["e"] = "Op"; e["op"] = "close"; e["s"] = fault_obj; e["ec"] = "ok"; e["t"] = t; e["destroy"] = true;
+			rec.emit(e);
+			rops.erase(fault_obj);
+			in_api = true; it->second.reset(); in_api = false;
+			return;
+		}
+		in_fault = true; do_op(o); in_fault = false;
+	}
+	bool fault_applied = false, in_fault = false;
 
 	explicit udp_run(recorder& r) : rec(r) {}
 
@@ -144,7 +168,7 @@ struct udp_run
 				}
 				{ json::object e; e["e"] = "Ready"; e["s"] = s; e["t"] = t; e["inline"] = in_api; rec.emit(e); }
 				auto sit = socks.find(s);
-				if (sit == socks.end() || !sit->second) return;
+				if (sit == socks.end() || !sit->second || !sit->second->is_open()) return;
 				{ json::object e; e["e"] = "StartRecv"; e["s"] = s; e["style"] = "sync"; e["cap"] = cap; rec.emit(e); }
 				auto b = make_bufs(*r);
 				error_code e2;
@@ -163,6 +187,8 @@ struct udp_run
 		std::int64_t t = rec.sync();
 		auto it = socks.find(s);
 		if (it == socks.end() || !it->second) return;
+		// the program does not go on using an object that a fault closed
+		if (fault_applied && s == fault_obj && fault_what != "cancel" && !in_fault) return;
 		udp::socket& so = *it->second;
 		error_code ec;
 		if (op == "bind")
@@ -181,7 +207,7 @@ struct udp_run
 			in_api = false;
 			json::object e; e["e"] = "Op"; e["op"] = op; e["s"] = s; e["ec"] = "ok"; e["t"] = t;
 			rec.emit(e);
-			if (op != "open") rops.erase(s);
+			if (op != "open") { rops.erase(s); waitw_pending[s] = false; }
 		}
 		else if (op == "sndbuf")
 		{
@@ -218,12 +244,32 @@ struct udp_run
 			std::vector<asio::const_buffer> cb;
 			std::size_t off = 0;
 			for (int n : bufs) { cb.push_back(asio::const_buffer(pl.data() + off, std::size_t(n))); off += std::size_t(n); }
+			if (waitw_pending[s])
+			{
+				// send_to aborts an outstanding wait-for-writable first
+				json::object e; e["e"] = "SupersedeW"; e["s"] = s; rec.emit(e);
+				waitw_pending[s] = false;
+			}
 			in_api = true;
 			std::size_t ret = so.send_to(cb, udp::endpoint(w.real_addr(da), dp), 0, ec);
 			in_api = false;
 			json::object e; e["e"] = "Send"; e["s"] = s; e["id"] = id; e["dst"] = dst; e["size"] = std::int64_t(total);
 			e["ret"] = std::int64_t(ret); e["ec"] = ec_name(ec); e["t"] = t;
 			rec.emit(e);
+		}
+		else if (op == "waitw")
+		{
+			{ json::object e; e["e"] = "StartWaitW"; e["s"] = s; e["t"] = t; rec.emit(e); }
+			waitw_pending[s] = true;
+			in_api = true;
+			so.async_wait(udp::socket::wait_write, [this, s](error_code const& e2) {
+				std::int64_t t2 = rec.sync();
+				if (!e2) waitw_pending[s] = false;
+				json::object e; e["e"] = e2 ? "WaitWAborted" : "Writable"; e["s"] = s; e["ec"] = ec_name(e2);
+				e["inline"] = in_api; e["t"] = t2;
+				rec.emit(e);
+			});
+			in_api = false;
 		}
 		else if (op == "recv")
 		{
@@ -266,9 +312,16 @@ struct udp_run
 			c["mtu"] = m; c["dmtu"] = w.dmtu;
 			rec.emit(c);
 		}
+		if (prog.find("fault") != prog.end())
+		{
+			json::object const& f = prog.at("fault").as_object();
+			fault_k = geti(f, "k"); fault_obj = gets(f, "obj"); fault_what = gets(f, "what");
+		}
 		sim->verif_step_hook = [this](int kind) {
-			if (kind != 1 && ++steps > 2000000 && !livelock)
+			if (kind == 1) return;
+			if (++steps > 2000000 && !livelock)
 			{ livelock = true; rec.line("{\"e\":\"Livelock\"}"); throw livelock_error(); }
+			if (++bcount == fault_k) apply_fault();
 		};
 		json::array const& ops = prog.at("ops").as_array();
 		asio::io_context& tios = sim->get_io_context();
@@ -284,11 +337,14 @@ struct udp_run
 			timers.back()->async_wait([this, batch](error_code const& ec) { if (!ec) for (auto const& o : batch) do_op(o); });
 			k = e;
 		}
-		try { sim->run(); } catch (livelock_error const&) {}
+		bool thrown = false;
+		try { sim->run(); } catch (livelock_error const&) {} catch (thrown_by_fault const&) { thrown = true; }
 		rec.sync();
+		boundaries = bcount;
 		// datagrams that entered the network and never reached the last hop
 		for (auto const& kv : last_hop)
 		{
+			if (thrown) break;
 			if (arrived.count(kv.first)) continue;
 			std::string const& hop = kv.second;
 			std::string q;
@@ -302,7 +358,7 @@ struct udp_run
 			json::object e; e["e"] = "Lost"; e["id"] = kv.first; e["where"] = q; e["finite"] = finite;
 			rec.emit(e);
 		}
-		rec.line(livelock ? "{\"e\":\"Abandon\"}" : "{\"e\":\"End\"}");
+		rec.line(livelock ? "{\"e\":\"Abandon\"}" : thrown ? "{\"e\":\"EndThrown\"}" : "{\"e\":\"End\"}");
 		sim->verif_step_hook = nullptr;
 		timers.clear();
 		rops.clear();
@@ -317,7 +373,7 @@ int record_udp(int argc, char** argv)
 	if (argc < 2) { std::fprintf(stderr, "usage: record-udp <programs.ndjson> [skip] [seed]\n"); return 2; }
 	std::size_t skip = argc > 2 ? std::strtoull(argv[2], nullptr, 10) : 0;
 	std::string tpath = std::string(argv[1]) + ".trace";
-	std::FILE* tf = std::fopen(tpath.c_str(), skip ? "a" : "w");
+	std::FILE* tf = open_trace(tpath, skip);
 	if (!tf) { std::perror(tpath.c_str()); return 2; }
 	recorder rec(tf);
 	int rc = for_each_behaviour(argv[1], skip, [&](std::size_t, json::value const& v) {
@@ -327,6 +383,7 @@ int record_udp(int argc, char** argv)
 		std::fflush(tf);
 		result res;
 		res.extra["events"] = rec.events - before;
+		res.extra["boundaries"] = r.boundaries;
 		if (r.livelock) res.fail(-1, "livelock", "step budget exceeded");
 		return res;
 	});
